@@ -189,20 +189,45 @@ class Sym:
 
 
 class Seq:
-    def __init__(self, items):
-        self.items = list(items)
+    """A lazily evaluated, memoised stream (ordinary generator / LINQ semantics): Select and Where do no work until
+    a consumer pulls elements; First() and indexing pull only as far as they need, every other consumer (`items`)
+    pulls everything, in order.  So `Select(f).First()` evaluates f on the first element only - a fault of f on a
+    later element is not a fault of the query."""
 
-    def Select(self, f): return Seq(f(x) for x in self.items)
-    def Where(self, p): return Seq(x for x in self.items if _truth(p(x)))
+    def __init__(self, items):
+        self._it = iter(items)
+        self._got: List[Any] = []
+
+    def _pull(self) -> bool:
+        try:
+            self._got.append(next(self._it))
+            return True
+        except StopIteration:
+            return False
+
+    def __iter__(self):
+        i = 0
+        while i < len(self._got) or self._pull():
+            yield self._got[i]
+            i += 1
+
+    @property
+    def items(self):
+        while self._pull():
+            pass
+        return self._got
+
+    def Select(self, f): return Seq(f(x) for x in self)
+    def Where(self, p): return Seq(x for x in self if _truth(p(x)))
 
     def SelectMany(self, f):
-        out = []
-        for x in self.items:
-            r = f(x)
-            if not isinstance(r, Seq):
-                raise RefUnsupported("SelectMany of a non-sequence")
-            out.extend(r.items)
-        return Seq(out)
+        def gen():
+            for x in self:
+                r = f(x)
+                if not isinstance(r, Seq):
+                    raise RefUnsupported("SelectMany of a non-sequence")
+                yield from r
+        return Seq(gen())
 
     def Count(self): return N("i", len(self.items))
 
@@ -237,17 +262,21 @@ class Seq:
         return m
 
     def First(self):
-        if not self.items:
+        if not self._got and not self._pull():
             raise RefFault("first_empty")
-        return self.items[0]
+        return self._got[0]
 
     def __getitem__(self, i):
         i = N.lift(i)
         if not isinstance(i, N) or i.k != "i":
             raise RefUnsupported("index")
-        if i.v < 0 or i.v >= len(self.items):
+        if i.v < 0:
             raise RefFault("index")
-        return self.items[int(i.v)]
+        while len(self._got) <= i.v and self._pull():
+            pass
+        if i.v >= len(self._got):
+            raise RefFault("index")
+        return self._got[int(i.v)]
 
 
 def _truth(x):
